@@ -414,6 +414,76 @@ def run_services(version: tuple[int, int], hello_name: str | None = None) -> dic
     return {"method": "execute_service", "version": version, "calls": calls, "nontrivial": calls, "viol": viol}
 
 
+def run_backpressure(noise: bool) -> dict[str, Any]:
+    """Commands issued while the socket cannot take (all of) the bytes: asyncio queues what it was given and sends it later.
+    What finally reaches the device must still be exactly the requests, in order."""
+    env.load()
+    from aioesphomeapi import model as m
+
+    pb = env.pb()
+    viol: list[tuple[str, str, Any]] = []
+    calls = 0
+    seqs = [
+        [("switch_command", {"key": 1, "state": True}), ("number_command", {"key": 2, "state": 1.5}), ("text_command", {"key": 3, "state": "abc"})],
+        [("light_command", {"key": 4, "brightness": 0.5, "effect": "x" * 200}), ("light_command", {"key": 5, "state": False}),
+         ("fan_command", {"key": 6, "speed_level": 3}), ("button_command", {"key": 7})],
+        [("text_command", {"key": 8, "state": "y" * 3000}), ("select_command", {"key": 9, "state": "opt"}), ("cover_command", {"key": 10, "position": 0.25}),
+         ("lock_command", {"key": 11, "command": m.LockCommand.LOCK}), ("switch_command", {"key": 12, "state": False})],
+    ]
+    sp = specs()
+    for si, seq in enumerate(seqs):
+        for mode in ("blocked", "partial-1", "partial-7", "blocked-after-first"):
+            s = Session((1, 10), noise=noise)
+            try:
+                sock = s.sock
+                if mode == "blocked":
+                    sock.writable = False
+                elif mode.startswith("partial"):
+                    sock.send_limit = int(mode.split("-")[1])
+                expected = []
+                for i, (meth, kw) in enumerate(seq):
+                    if mode == "blocked-after-first" and i == 1:
+                        sock.writable = False
+                    try:
+                        getattr(s.w.client, meth)(**kw)
+                    except Exception as e:  # noqa: BLE001
+                        viol.append((f"backpressure:{'noise' if noise else 'plain'}:{mode}:raises",
+                                     f"{meth} issued while the socket was {mode} raised {type(e).__name__}: {e}", {"mode": mode, "seq": si}))
+                        break
+                    calls += 1
+                    spec = sp[meth]
+                    req_vals = {k: v for k, v in kw.items() if k in [r[0] for r in spec.get("req", [])]}
+                    supplied = {k: v for k, v in kw.items() if k != "key" and k not in req_vals}
+                    exp, _ = expected_request(meth, spec, (1, 10), kw["key"], req_vals, supplied, None)
+                    expected.append((spec["msg"], exp))
+                sock.writable = True
+                s.w.drain()
+                try:
+                    if noise:
+                        frames = s.w.sent_frames()[s.fmark:]
+                    else:
+                        data = b"".join(b for _, b in sock.sent[s.mark:])
+                        frames = wire.decode_strict(data)
+                except Exception as e:  # noqa: BLE001
+                    viol.append((f"backpressure:{'noise' if noise else 'plain'}:{mode}:undecodable",
+                                 f"commands {[x[0] for x in seq]} issued while the socket was {mode}: what reached the device does not decode: "
+                                 f"{type(e).__name__}: {e}", {"mode": mode, "seq": si}))
+                    continue
+                got = []
+                for typ, payload in frames:
+                    name = s.ids.get(typ, f"?{typ}")
+                    msg = getattr(pb, name)()
+                    msg.ParseFromString(payload)
+                    got.append((name, msg))
+                if got != expected:
+                    viol.append((f"backpressure:{'noise' if noise else 'plain'}:{mode}",
+                                 f"commands {[x[0] for x in seq]} issued while the socket was {mode}: the device received "
+                                 f"{[(n, getattr(g, 'key', None)) for n, g in got]}, expected {[(n, e.key) for n, e in expected]}", {"mode": mode, "seq": si}))
+            finally:
+                s.close()
+    return {"method": "backpressure", "version": (1, 10), "calls": calls, "nontrivial": calls, "viol": viol}
+
+
 def run_camera(version: tuple[int, int]) -> dict[str, Any]:
     env.load()
     pb = env.pb()
@@ -436,6 +506,8 @@ def _job(j: tuple[Any, ...]) -> dict[str, Any]:
         return run_camera(j[1])
     if j[0] == "ms":
         return run_ms_sweep(j[1])
+    if j[0] == "bp":
+        return run_backpressure(j[1])
     return run_method(j[1:])
 
 
@@ -499,6 +571,8 @@ def run(tier: str, seed: int) -> Result:
         jobs.append(("svc", v, ""))
     jobs.append(("cam", (1, 10)))
     jobs.append(("ms", (1, 10)))
+    jobs.append(("bp", False))
+    jobs.append(("bp", True))
     jobs.sort(key=lambda j: 0 if (j[0] == "m" and j[1] == "light_command" and j[3] == "full") else 1)
     ctx = mp.get_context("fork")
     with ctx.Pool(min(16, os.cpu_count() or 1)) as pool:
@@ -510,7 +584,7 @@ def run(tier: str, seed: int) -> Result:
         per_method[r["method"]] = per_method.get(r["method"], 0) + r["calls"]
         for k, clause, detail in r["viol"]:
             res.add(k, clause, detail)
-    if calls < 20000 or len(per_method) < 19:
+    if calls < 20000 or len(per_method) < 20:
         raise HarnessError(f"vacuous: {calls} calls over {len(per_method)} methods")
     res.coverage = {
         "evaluations": calls + spec_evals,
